@@ -167,6 +167,43 @@ func (p c17) Run(ctx *core.RunCtx) {
 	r := params.RingQ()
 	N := r.N()
 	L := r.Level()
+	if ch.Chance("extreme-density", 1, 40) {
+		// densities at the ends of (0,1): the constructor refuses them, or the sampler returns ternary polynomials
+		// (in bounded time) - nearly all zero, respectively nearly none
+		pv := []float64{1e-17, 1.0 / (1 << 60), 1e-9, 1 - 1e-9, 1 - 1.0/(1<<52)}[ch.Draw("extreme-p", 5)]
+		key := make([]byte, 32)
+		core.NewXoshiro(uint64(ch.Draw("key-seed", 1<<16))).Fill(key)
+		src, _ := sampling.NewKeyedPRNG(key)
+		ctx.Event("ternary sampler with P=%g", pv)
+		ctx.Count("probe.ternary-extreme-density", 1)
+		ctx.Nontrivial = true
+		smp, err := ring.NewSampler(src, r, ring.Ternary{P: pv}, false)
+		if err != nil {
+			ctx.Count("probe.extreme-density-refused", 1)
+			return
+		}
+		var pol ring.Poly
+		pk, site, msg := core.Protect(func() { pol = smp.ReadNew() })
+		if pk {
+			ctx.Fail("panic", "ternaryP|extreme-density", "ternary sampler with P=%g panicked in %s: %s", pv, site, msg)
+			return
+		}
+		nz := 0
+		for j := 0; j < N; j++ {
+			c := pol.Coeffs[0][j]
+			if c != 0 && c != 1 && c != r.SubRings[0].Modulus-1 {
+				ctx.Fail("contract", "ternaryP|support", "ternary sampler with P=%g returned coefficient %d", pv, c)
+				return
+			}
+			if c != 0 {
+				nz++
+			}
+		}
+		if pv < 0.5 && nz > N/4 || pv > 0.5 && nz < 3*N/4 {
+			ctx.Fail("moments", "ternaryP|density", "ternary sampler with P=%g returned %d non-zero coefficients of %d", pv, nz, N)
+		}
+		return
+	}
 	// distribution
 	var d c17Dist
 	d.kind = ch.Weighted("dist", []int{3, 4, 3, 3})
@@ -794,11 +831,23 @@ func (p c17) qpAndExpand(ctx *core.RunCtx, params rlwe.Parameters, key []byte) {
 			}
 		}
 	}
-	// WithPRNG: a re-keyed copy follows the new key from its start
+	// WithPRNG: a re-keyed copy follows the new key from its start; also of a level view, and of the view without
+	// a Q part (levelQ = -1, which AtLevel, Read and ReadNew accept)
 	{
 		k2, _ := sampling.NewKeyedPRNG(key)
-		cp := sa.WithPRNG(k2)
-		_, fresh := mk()
+		src, fresh := sa, ringqp.UniformSampler{}
+		_, fresh = mk()
+		if params.MaxLevelP() >= 0 && ch.Chance("qp-withprng-on-view", 1, 2) {
+			lq := ch.Draw("qp-view-levelQ", params.MaxLevelQ()+2) - 1
+			src, fresh = sa.AtLevel(lq, params.MaxLevelP()), fresh.AtLevel(lq, params.MaxLevelP())
+			ctx.Count("probe.withprng-on-level-view", 1)
+		}
+		var cp ringqp.UniformSampler
+		pk, site, msg := core.Protect(func() { cp = src.WithPRNG(k2) })
+		if pk {
+			ctx.Fail("panic", "ringqp.UniformSampler.WithPRNG", "WithPRNG on a level view panicked in %s: %s", site, msg)
+			return
+		}
 		x, y := cp.ReadNew(), fresh.ReadNew()
 		ctx.Count("oracle.twin-qp", 1)
 		if !x.Equal(&y) {
